@@ -57,8 +57,12 @@ def main():
     a = ap.parse_args()
     prop = json.load(open(os.path.join(ROOT, "props", a.pid + ".json")))
     hbin = prop["harness_bin"]
+    # RUSTFLAGS also instruments the proc-macro dylibs, which rustc loads while compiling the path
+    # dependencies with its working directory inside /repo: without LLVM_PROFILE_FILE those rustc
+    # processes would drop default_*.profraw files into the crate directories of /repo.
+    os.makedirs("/tmp/cov/build", exist_ok=True)
     env = dict(os.environ, CARGO_TARGET_DIR=TARGET, CARGO_NET_OFFLINE="true", RUSTFLAGS="-C instrument-coverage",
-               VERIF_REPO=REPO)
+               VERIF_REPO=REPO, LLVM_PROFILE_FILE="/tmp/cov/build/b-%m-%p.profraw")
     r = subprocess.run(["cargo", "+nightly", "build", "--offline", "--bin", hbin], cwd=os.path.join(ROOT, "harness"),
                        env=env, text=True, stdout=subprocess.PIPE, stderr=subprocess.STDOUT)
     if r.returncode != 0:
@@ -133,6 +137,7 @@ def main():
     dst = os.path.join(ROOT, "notes", "coverage", a.pid + ".txt")
     open(dst, "w").write("\n".join(out) + "\n")
     shutil.rmtree(prof, ignore_errors=True)
+    shutil.rmtree("/tmp/cov/build", ignore_errors=True)
     print(out[1])
     print("written", dst)
 
